@@ -29,6 +29,8 @@
      H_conn   find (fun y => Nat.eqb (fst y) cid) (js_conns stj) = Some (cid, (li, cn_peer cn, cn_peer_port cn)):
               the judge's record of the connection carries the listen entry and the peer address / port of the
               model's connection record [cn] (for UDP the event itself carries li, src, sport).
+     H_mark   (li < dial_mark)%nat: that record is one of an ACCEPTED connection (the judge files the connections
+              the proxy dialled with the listen entry + SpecProxy.dial_mark).
      H_from   cn_from cn = {| t_kind := KTcpListen; t_addr := lc_addr lc; t_port := lc_tcp lc |}: the connection is
               an ACCEPTED one, read by the listen entry's TCP server transport (a dialled connection is read by
               a KTcpConn transport with port 0; its own Via entry is readable as well, but that is another
@@ -61,7 +63,7 @@ Open Scope list_scope.
 
 (* ====================================================================== Part 1: the judge on EvTcpData *)
 Lemma judge_C07_tcp_unfold pc st cid data outs closed li ip port :
-  find (fun y => Nat.eqb (fst y) cid) (js_conns st) = Some (cid, (li, ip, port)) ->
+  find (fun y => Nat.eqb (fst y) cid) (js_conns st) = Some (cid, (li, ip, port)) -> (li < dial_mark)%nat ->
   judge_C07_event pc st (EvTcpData cid data) outs closed =
   match j_read data, nth_opt (c_listens (pc_cfg pc)) li with
   | Some m, Some lc =>
@@ -74,7 +76,7 @@ Lemma judge_C07_tcp_unfold pc st cid data outs closed li ip port :
       else O
   | _, _ => O
   end.
-Proof. intros H. unfold judge_C07_event, j_input. rewrite H. reflexivity. Qed.
+Proof. intros H M. unfold judge_C07_event. rewrite (j_input_accepted st cid li ip port data H M). reflexivity. Qed.
 
 (* ====================================================================== Part 2: one message *)
 (* REQUESTED AND PROVED.  For every configuration, judge state, model connection record [cn] of an accepted
@@ -90,6 +92,7 @@ Theorem C07_judge_bridge_tcp_msg :
   let e := mk_env fx c (item_rs_of (fx_wiring fx)) li lc now br in
   nth_opt (c_listens c) li = Some lc ->
   find (fun y => Nat.eqb (fst y) cid) (js_conns stj) = Some (cid, (li, cn_peer cn, cn_peer_port cn)) ->
+  (li < dial_mark)%nat ->
   cn_from cn = {| t_kind := KTcpListen; t_addr := lc_addr lc; t_port := lc_tcp lc |} ->
   cn_received_support cn = received_on lc ->
   j_read data = Some jin -> parse_message data = Ok (m, rest) ->
@@ -103,8 +106,8 @@ Theorem C07_judge_bridge_tcp_msg :
   judge_C07_event pc stj (EvTcpData cid data) (map lab (filter keep pre)) closed = O.
 Proof.
   intros pc stj fx now br cid li lc cn data jin m rest x x' pre keep closed c e
-         EL HC HFr HRS HJ HP HV Hsrc Hbr Ha Hu Ht HLn EP EO.
-  subst c. rewrite (judge_C07_tcp_unfold pc stj cid data _ closed li _ _ HC). rewrite HJ, EL.
+         EL HC HM HFr HRS HJ HP HV Hsrc Hbr Ha Hu Ht HLn EP EO.
+  subst c. rewrite (judge_C07_tcp_unfold pc stj cid data _ closed li _ _ HC HM). rewrite HJ, EL.
   destruct (negb (j_is_response jin) && jm_has_cl jin && (negb true || single_message jin))%bool eqn:Cond;
     [|reflexivity].
   destruct (read_agree _ _ _ _ HJ HP) as (_ & _ & _ & Bd & PS).
@@ -175,6 +178,7 @@ Theorem C07_judge_bridge_tcp_step :
   nth_opt (c_listens (pc_cfg pc)) li = Some lc ->
   find (fun y => Nat.eqb (cn_id y) cid) (st_conns st) = Some cn ->
   find (fun y => Nat.eqb (fst y) cid) (js_conns stj) = Some (cid, (li, cn_peer cn, cn_peer_port cn)) ->
+  (li < dial_mark)%nat ->
   cn_li cn = li ->
   cn_from cn = {| t_kind := KTcpListen; t_addr := lc_addr lc; t_port := lc_tcp lc |} ->
   cn_received_support cn = received_on lc ->
@@ -186,7 +190,7 @@ Theorem C07_judge_bridge_tcp_step :
   judge_C07_event pc stj (EvTcpData cid data) (map lab (filter keep outs)) closed = O.
 Proof.
   intros pc stj fx now br st cid li lc cn data jin m rest st' outs keep closed
-         EL HF HC HLi HFr HRS HJ HP HT HV Hsrc Hbr Ha Hu Ht HLn H.
+         EL HF HC HM HLi HFr HRS HJ HP HT HV Hsrc Hbr Ha Hu Ht HLn H.
   subst li. cbn [proxy_step] in H. rewrite HF in H.
   destruct (cn_open cn); [|injection H as <- <-; apply judge_C07_nil].
   cbv zeta in H. rewrite EL in H. unfold run_ctx in H.
@@ -195,7 +199,7 @@ Proof.
   destruct (process_message _ _ _ _ _ _ _ _) as [x'| |] eqn:E; try discriminate.
   injection H as <- <-.
   eapply (C07_judge_bridge_tcp_msg pc stj fx now br cid (cn_li cn) lc cn data jin m rest _ x' (x_outs x') keep closed
-            EL HC HFr HRS HJ HP HV Hsrc Hbr Ha Hu Ht); [|exact E|reflexivity].
+            EL HC HM HFr HRS HJ HP HV Hsrc Hbr Ha Hu Ht); [|exact E|reflexivity].
   exact HLn.
 Qed.
 
@@ -297,6 +301,7 @@ Proof.
   - reflexivity.
   - exact tx_conn_found.
   - exact tx_judge_conn.
+  - exact zero_below_mark.
   - reflexivity.
   - reflexivity.
   - reflexivity.
